@@ -285,6 +285,14 @@ def gen_model(ch: Choices, opts: Optional[dict] = None) -> dict:
             c = gen_constraint(ch, model, t, opts)
         if c is not None:
             model["props"].append(c)
+    if ch.chance(1, 4, "var_order"):
+        # the variables are listed in another order than their shared domains (variable i need not sit on domain i)
+        nv = len(model["idx"])
+        perm = ch.shuffle(list(range(nv)), "var_order.perm")  # new position p holds old variable perm[p]
+        pos = {old: p for p, old in enumerate(perm)}
+        model["idx"] = [model["idx"][old] for old in perm]
+        model["off"] = [model["off"][old] for old in perm]
+        model["props"] = [[[pos[v] for v in vs], alg, params] for vs, alg, params in model["props"]]
     return model
 
 
